@@ -5,11 +5,13 @@ import (
 	"encoding/binary"
 	"fmt"
 	"math/big"
+	"strings"
 	"testing"
 
 	"golang.org/x/crypto/poly1305"
 	"pgregory.net/rapid"
 
+	"verif/harness/internal/clibaead"
 	"verif/harness/internal/ev"
 	"verif/harness/internal/gen"
 	"verif/harness/internal/refaead"
@@ -215,6 +217,11 @@ var c04Targets = []struct {
 // It returns whether the real pre-finalisation accumulator was >= p.
 func c04Check(key, msg []byte, chunks []int, sumPrefix []byte) (hGEp bool, err error) {
 	want := refaead.Poly1305(key, msg)
+	if clibaead.Available() {
+		if sw, err := clibaead.OneTimeAuth(key, msg); err != nil || sw != want {
+			return false, fmt.Errorf("%soracles disagree: libsodium crypto_onetimeauth %x vs definition %x (err=%v, key=%x msg=%x)", c04OracleTrouble, sw, want, err, key, msg)
+		}
+	}
 	var k [32]byte
 	copy(k[:], key)
 	fail := func(path string, got []byte) error {
@@ -331,6 +338,22 @@ func c04Check(key, msg []byte, chunks []int, sumPrefix []byte) (hGEp bool, err e
 	return hGEp, nil
 }
 
+// c04OracleTrouble prefixes errors that are harness trouble (oracle vs oracle), not violations.
+const c04OracleTrouble = "HARNESS: "
+
+// c04Fatal reports err as a violation, or as inconclusive when the two oracles disagree.
+func c04Fatal(c *ev.Collector, record bool, fatalf func(string, ...any), ctx string, err error) {
+	if strings.HasPrefix(err.Error(), c04OracleTrouble) {
+		c.Inconclusive(err.Error())
+		fatalf("VF-INCONCLUSIVE: property=C04 %v", err)
+		return
+	}
+	if record {
+		c.Violation(ctx+": "+err.Error(), "")
+	}
+	fatalf("VF-VIOLATION: property=C04 %s: %v", ctx, err)
+}
+
 func TestC04(t *testing.T) {
 	c := ev.New("C04", "non-trivial: message of at least 2 blocks, or the real accumulator is >= 2^130-5 before the final reduction (measured on the state, the region random inputs never reach); distinct = (r class, s class, |msg| class, tail length, directed target, h>=p flag)")
 	defer c.Flush(t)
@@ -346,6 +369,7 @@ func TestC04(t *testing.T) {
 		c.Variant("public API -> portable update (purego build)")
 	}
 	c.Variant("sumGeneric / macGeneric (portable)")
+	sodiumOracle(c, "crypto_onetimeauth_poly1305")
 	c.Variant("raw updateGeneric (portable)")
 	rapid.Check(t, func(rt *rapid.T) {
 		rb, rc := genR(rt)
@@ -384,7 +408,7 @@ func TestC04(t *testing.T) {
 		prefix := gen.RandBytes(rt, "sumPrefix", rapid.IntRange(0, 5).Draw(rt, "sumPrefixLen"))
 		ge, err := c04Check(key, msg, chunks, prefix)
 		if err != nil {
-			rt.Fatalf("VF-VIOLATION: property=C04 %s %s %s: %v", rc, sc, dirName, err)
+			c04Fatal(c, false, rt.Fatalf, rc+" "+sc+" "+dirName, err)
 		}
 		cls := []string{rc, sc, mc, "len:" + gen.LenClass(len(msg), 16)}
 		if ge {
@@ -420,8 +444,7 @@ func TestC04(t *testing.T) {
 			for _, chunks := range [][]int{{len(msg)}, {16, 16, 16}, {1, 15, 17}, {0, 31, 1}} {
 				ge, err := c04Check(key, msg, chunks, nil)
 				if err != nil {
-					c.Violation(err.Error(), "")
-					t.Fatalf("VF-VIOLATION: property=C04 directed r=1 h=p%+d: %v", d, err)
+					c04Fatal(c, true, t.Fatalf, fmt.Sprintf("directed r=1 h=p%+d", d), err)
 				}
 				c.Case(true, fmt.Sprintf("table1|%d|%x|%v|%v", d, sHex[:2], chunks, ge), "directed:r=1 two-block sums", fmt.Sprintf("directed:h>=p=%v", ge))
 				n++
@@ -462,8 +485,7 @@ func TestC04(t *testing.T) {
 						msg := append(clone(sq), tl...)
 						ge, err := c04Check(key, msg, []int{max(0, len(msg)/16*16-16*(ti%2)), 16}, nil)
 						if err != nil {
-							c.Violation(err.Error(), "")
-							t.Fatalf("VF-VIOLATION: property=C04 extreme-value table: %v", err)
+							c04Fatal(c, true, t.Fatalf, "extreme-value table", err)
 						}
 						c.Case(len(msg) >= 32 || ge, fmt.Sprintf("table1b|%x|%x|%d|%d|%v", rv, sv[:2], len(sq), ti, ge), "directed:extreme-block-sequences", fmt.Sprintf("directed:h>=p=%v", ge))
 						n++
